@@ -16,6 +16,7 @@ from gen import synth  # noqa: E402
 
 WRAP = os.path.join(os.path.dirname(HERE), "c07_wrap.py")
 PREFIX = "S"
+GZ_REF_NAME = "refgenome.fa"            # a plain-gzip reference is `<GZ_REF_NAME>.gz`; unpacked into <out>/<GZ_REF_NAME>
 MULTI_PREFIXES = ["expA", "expB"]       # experiment names of a two-experiment invocation (--bam_list)
 
 
@@ -42,8 +43,9 @@ def make_dataset(cfg, d):
         lens = rng.sample(range(22000, 42000, 500), n)
         for ci, (nm, ln) in enumerate(zip(names, lens)):
             ds.add_chrom(nm, ln)
-            if ci > 0 and rng.random() < 0.2:
-                continue        # a chromosome without genes and reads
+            if ci > 0 and rng.random() < 0.2 and not cfg.get("gz_ref"):
+                continue        # a chromosome without genes and reads (not with a plain-gzip reference: there the last
+                                # chromosome of the FASTA - absent from a partially unpacked copy - must have reads)
             pos = 1000
             for gi in range(rng.randint(1, 2)):
                 strand = rng.choice("+-")
@@ -86,6 +88,14 @@ def make_dataset(cfg, d):
                 f.write("%s\tgrp%d\n" % (r["name"], i % 3))
         paths["groups"] = os.path.join(d, "groups.tsv")
         chrs = [nm for nm, _ in sorted(zip(names, lens), key=lambda x: -x[1])]
+    if cfg.get("gz_ref"):
+        # the reference gzip- but NOT bgzip-compressed: pyfaidx refuses it, DatasetProcessor.__init__ unpacks it into the
+        # output folder.  Every run gets its own copy of the compressed file (GzRefSession.prepare): pyfaidx writes the
+        # index of the unpacked copy next to the *compressed* file, runs in parallel must not share it
+        import gzip
+        paths["ref_gz"] = os.path.join(d, GZ_REF_NAME + ".gz")
+        with open(paths["ref"], "rb") as f, gzip.open(paths["ref_gz"], "wb") as g:
+            shutil.copyfileobj(f, g)
     # annotation database converted once (the conversion stage is outside the property's quantifier)
     if cfg.get("genedb", True):
         import gffutils
@@ -98,9 +108,12 @@ def make_dataset(cfg, d):
     return {"paths": paths, "chrs": chrs, "mchrs": mchrs, "bchrs": list(names)}
 
 
-def cli_args(cfg, data, threads=1, alt=False, saves=None, force=False):
-    """alt: the other alignment file; saves: prefix of kept save files (--read_assignments instead of --bam)"""
-    p = data["paths"]
+def cli_args(cfg, data, threads=1, alt=False, saves=None, force=False, ref=None):
+    """alt: the other alignment file; saves: prefix of kept save files (--read_assignments instead of --bam);
+    ref: the reference file to use instead of the data set's uncompressed one"""
+    p = dict(data["paths"])
+    if ref:
+        p["ref"] = ref
     inp = ["--read_assignments", saves] if saves else ["--bam", p["bam_alt"] if alt else p["bam"]]
     if cfg.get("multi"):
         inp = ["--bam_list", p["bam_list"]]
